@@ -210,3 +210,102 @@ func eventMethods(w *World) []*ssa.Function {
 	}
 	return out
 }
+
+// readOnlyInput: the decoders do not write into the buffer they decode. Starting from the byte-slice parameters of the
+// roots, memory derived from them (re-slices, named slice types, phis, the same parameter of in-package callees) is
+// followed; a store through an element address of it - or handing it to copy/append as the destination - changes the
+// event in place: every later decode of the same bytes (the other image of the row, a second pass, a retained event)
+// sees different data. (A decoder that needs scratch space copies first, as the DECIMAL case does.)
+func readOnlyInput(a *A, rule, what string, roots []*ssa.Function, pkg *ssa.Package) {
+	w := a.W
+	type pkey struct {
+		f *ssa.Function
+		i int
+	}
+	seen := map[pkey]bool{}
+	var work []pkey
+	isBytes := func(t types.Type) bool {
+		sl, ok := t.Underlying().(*types.Slice)
+		if !ok {
+			return false
+		}
+		b, ok := sl.Elem().Underlying().(*types.Basic)
+		return ok && b.Kind() == types.Uint8
+	}
+	for _, r := range roots {
+		if r == nil {
+			continue
+		}
+		for i, p := range r.Params {
+			if isBytes(p.Type()) {
+				work = append(work, pkey{r, i})
+			}
+		}
+	}
+	if len(work) == 0 {
+		a.undecided(rule, "read-only@"+what, "-", "no byte-slice parameter of %s found", what)
+		return
+	}
+	bad, nfn := 0, 0
+	for len(work) > 0 {
+		k := work[len(work)-1]
+		work = work[:len(work)-1]
+		if seen[k] || k.f.Blocks == nil || k.i >= len(k.f.Params) {
+			continue
+		}
+		seen[k] = true
+		nfn++
+		tainted := map[ssa.Value]bool{}
+		var visit func(v ssa.Value, d int)
+		visit = func(v ssa.Value, d int) {
+			if tainted[v] || d > 12 || v.Referrers() == nil {
+				return
+			}
+			tainted[v] = true
+			for _, ref := range *v.Referrers() {
+				switch x := ref.(type) {
+				case *ssa.Slice:
+					if x.X == v {
+						visit(x, d+1)
+					}
+				case *ssa.ChangeType:
+					visit(x, d+1)
+				case *ssa.Phi:
+					visit(x, d+1)
+				case *ssa.IndexAddr:
+					if x.X != v {
+						continue
+					}
+					for _, rr := range *x.Referrers() {
+						if st, ok := rr.(*ssa.Store); ok && st.Addr == ssa.Value(x) {
+							bad++
+							a.viol(rule, fmt.Sprintf("read-only@%s#%d", what, bad), w.posOf(st), "%s writes into the buffer it decodes (an element of memory derived from its parameter %s): the event is changed in place, so decoding the same bytes again gives a different result", fnName(k.f), k.f.Params[k.i].Name())
+						}
+					}
+				case ssa.CallInstruction:
+					c := x.Common()
+					if (isBuiltin(c, "copy") || isBuiltin(c, "append")) && len(c.Args) > 0 && c.Args[0] == v {
+						if isBuiltin(c, "copy") {
+							bad++
+							a.viol(rule, fmt.Sprintf("read-only@%s#%d", what, bad), w.posOf(x), "%s copies into the buffer it decodes", fnName(k.f))
+						}
+						continue
+					}
+					cal := c.StaticCallee()
+					if cal == nil || cal.Blocks == nil || enclosingPkg(cal) != pkg || c.IsInvoke() {
+						continue
+					}
+					for i, arg := range c.Args {
+						if arg == v && i < len(cal.Params) {
+							work = append(work, pkey{cal, i})
+						}
+					}
+				}
+			}
+		}
+		visit(k.f.Params[k.i], 0)
+	}
+	if bad == 0 {
+		a.hold(rule, "read-only@"+what, "-", "the input buffer is followed through %d (function, parameter) pairs; nothing stores into it", nfn)
+	}
+}
